@@ -46,8 +46,8 @@ CHECKS = {
          "Trusted: TLC; byte identity is checked on interned datagram bytes. Handshake messages (Sigma / PAKE) are added by the C01 / C02 taps when those checks are present.",
          "TLA+ model checking (TLC) + TLC trace validation of the wire tap of fault schedules replayed on the real stacks", "DESIGN.md section 4 C15"),
  "C03": ("model_checking",
-         "The receive side is a TLA+ reference (Packet.tla: a datagram is accepted iff a session is found by its id and encryption kind, it decrypts under that session's receive key with the session's stored peer identity in the nonce and the complete received header as associated data, and its counter is fresh); TLC enumerates session mode x message shape x payload length x 14 mutation classes and checks AcceptOnlyAuthentic on the reference. For each case the harness captures genuine datagrams from the real encoder, builds the concrete mutant (bit flips per header field / ciphertext / tag, truncation, extension, header transplant, re-addressing to another session, reflection, another source node, replay), injects it into the real receive path of a real node and checks: delivered iff authentic, a rejected datagram leaves the targeted session's snapshot (send counter, receive window, exchanges, key fingerprints) unchanged, and the genuine datagrams are still delivered with identical payload; plus every single-bit flip of a genuine datagram per mode and shape.",
-         "Trusted: the AEAD primitive; the snapshot hook. Unicast sessions with planted keys (CASE, PASE); group sessions only at the counter level (C04).",
+         "The receive side is a TLA+ reference (Packet.tla: a datagram is accepted iff a session is found by its id and encryption kind, it decrypts under that session's receive key with the session's stored peer identity in the nonce and the complete received header as associated data, and its counter is fresh); TLC enumerates session mode x message shape x payload length x 14 mutation classes and checks AcceptOnlyAuthentic on the reference. For each case the harness captures genuine datagrams from the real encoder, builds the concrete mutant (bit flips per header field / ciphertext / tag, truncation, extension, header transplant, re-addressing to another session, reflection, another source node, replay), injects it into the real receive path of a real node and checks: delivered iff authentic, a rejected datagram leaves the targeted session's snapshot (send counter, receive window, exchanges, key fingerprints) unchanged, and the genuine datagrams are still delivered with identical payload; plus every single-bit flip of a genuine datagram per mode and shape. Group data messages: a device with a real fabric, one group key set mapped to two groups; the reference additionally covers the header's source node id and destination group id (flipped, transplanted to the other group, another source identity in the nonce) and a second genuine sender while the first sender's ephemeral session is alive (every delivered message must arrive on a session whose peer is the sender it names).",
+         "Trusted: the AEAD primitive; the snapshot hook. Unicast sessions with planted keys (CASE, PASE); group data messages (group control / MCSP messages are not injected).",
          "TLA+ reference receiver enumerated by TLC vs injection into the real receive path with before/after snapshots", "DESIGN.md section 4 C03"),
  "C10": ("model_checking",
          "TLC proves exhaustively (2 sessions x 2 exchange ids - the same id may be live on both -, 2 responder handlers, 3-4 peer datagrams with any session / exchange id / initiator flag / reliable flag, a stray datagram, every handler policy reply / drop / hold / answer-reliably-and-drop, the last of which makes the device close the whole session) that the receive-slot machine transcribed from transport.rs / exchange.rs (RxSlot.tla) hands a message only to the owner of its (session, exchange), opens an exchange only for an allowed first message, and - under fairness of the sweepers and the owners - always frees the single receive slot and ends with no exchange left (liveness: SlotEventuallyFree, EventuallyClean). TLC-simulated disturbance schedules (2 sessions x 3 exchange ids, 8 datagrams, random policies) plus harness-made ones (unsecured strays, colliding exchange ids across sessions with a waiting owner, a message parked for accept while its session is closed under it) are replayed against a real device Matter with two policy-driven handlers; the peer is a raw injector holding the keys of three planted sessions; after the recovery horizon a fresh request on the third session must be answered, no exchange may be left, and a session the device gave up must have been closed with a CloseSession on the wire. TLC validates the recorded Inj / AppRx / Tx / Probe / End traces against Layer P (RxSlotProp.tla); handlers report the (session, exchange) they own from the device's own tables.",
